@@ -153,6 +153,7 @@ class Ctx:
         if heap:
             jvm.append("-Xmx" + heap)
         jvm.append("-Xss64m")
+        jvm.append("-Djava.io.tmpdir=" + md)      # TLC leaves an empty tlc-<n> directory per run in java.io.tmpdir
         if deque:
             jvm.append("-Dtlc2.tool.queue.IStateQueue=StateDeque")
         cmd = jvm + ["-cp", TLA_CP, "tlc2.TLC", "-metadir", md, "-config", cfg] + args + [module + ".tla"]
